@@ -269,6 +269,10 @@ fn main() {
                     0 => Action::Reset,
                     // the host accepts the batch (200) but its answer's body is cut short: 64 bytes announced, 8 sent, connection closed
                     1200 => Action::ReplyClose(vec![b"HTTP/1.1 200 OK\r\nContent-Type: text/plain\r\nContent-Length: 64\r\n\r\naccepted".to_vec()]),
+                    // failures that carry data: a throttling answer with a Retry-After header (seconds / an HTTP date far ahead)
+                    1503 => Action::Reply(vec![simple_response(503, &[("Retry-After", "4294967295")], b"")]),
+                    1429 => Action::Reply(vec![simple_response(429, &[("Retry-After", "4294967295")], b"busy")]),
+                    1504 => Action::Reply(vec![simple_response(503, &[("Retry-After", "Fri, 31 Dec 9999 23:59:59 GMT")], b"")]),
                     s => Action::Reply(vec![simple_response(s, &[], b"")]),
                 }
             } else {
@@ -392,6 +396,11 @@ fn main() {
         let f: Vec<Ev> = vec![ev("x".repeat(40 * 1024), "retry"), ev("y".repeat(40 * 1024), "retry")];
         cases.push((json!({"family": "upload-answers", "answers": answers}), vec![f], answers));
     }
+    // failures that carry a Retry-After header (last: a subject that hangs leaves a spinning thread behind)
+    for answers in [vec![1503u16, 200], vec![1429, 200], vec![1504, 200], vec![1503, 1503, 1503, 1503, 1503], vec![200, 1429, 1503, 200]] {
+        let f: Vec<Ev> = vec![ev("x".repeat(40 * 1024), "retry"), ev("y".repeat(40 * 1024), "retry")];
+        cases.push((json!({"family": "upload-answers-with-retry-after", "answers": answers}), vec![f], answers));
+    }
     if let Ok(path) = std::env::var("VERIF_REPLAY") {
         let doc: Value = serde_json::from_str(&std::fs::read_to_string(path).unwrap()).unwrap();
         cases.retain(|c| c.0 == doc["case"]);
@@ -494,7 +503,7 @@ fn main() {
     res.cov("measured_envelope_bytes", envelope as u64);
     res.cov("measured_bytes_per_empty_event", per_event as u64);
     res.cov("exhaustive", hung == 0);
-    res.cov("rule", format!("event files x {{1,2}} files x event counts x 10 content classes (markup, CDATA terminators, nested CDATA, 2/3/4-byte UTF-8, attribute-injection text, ...) in the message, and the same classes in the version / time stamp / level fields of a stored event; batches of 1-3 events whose rendered size is exactly limit-2..limit+1 (envelope measured: {envelope} + {per_event} per event), with and without small events behind; one event above the limit first/middle/last, also made of 2-/3-/4-byte characters at every alignment; files without events; every upload answer pattern of length <= {maxp} over {{200, 500}} plus connection resets and accepting answers (200) whose body is cut short, and other accepting statuses (201, 202, 204); each run = one cycle of the real EventReader on a paused clock; bodies parsed with xml-rs (document, then each CDATA payload)"));
+    res.cov("rule", format!("event files x {{1,2}} files x event counts x 10 content classes (markup, CDATA terminators, nested CDATA, 2/3/4-byte UTF-8, attribute-injection text, ...) in the message, and the same classes in the version / time stamp / level fields of a stored event; batches of 1-3 events whose rendered size is exactly limit-2..limit+1 (envelope measured: {envelope} + {per_event} per event), with and without small events behind; one event above the limit first/middle/last, also made of 2-/3-/4-byte characters at every alignment; files without events; every upload answer pattern of length <= {maxp} over {{200, 500}} plus connection resets and accepting answers (200) whose body is cut short, and other accepting statuses (201, 202, 204), and throttling answers (503 / 429) that carry a Retry-After header of 4294967295 seconds or a date in the year 9999; each run = one cycle of the real EventReader on a paused clock; bodies parsed with xml-rs (document, then each CDATA payload)"));
     res.assume("event text is free of control characters (as the statement restricts)");
     res.assume("goal state / shared config / instance documents served by the mock are the samples embedded in the repository's own unit tests");
     std::process::exit(res.finish());
